@@ -200,7 +200,7 @@ def configs(tier, seed):
     F_list = (1,) if tier == "quick" else (1, 2)
     for src, mod in (("c03", c03), ("c04", c04), ("c05", c05)):
         base = mod.configs(tier, seed)
-        step = 6 if tier == "quick" else 3
+        step = 6 if tier == "quick" else 4
         for i, c in enumerate(base):
             if i % step != (seed % step):
                 continue
@@ -212,7 +212,7 @@ def configs(tier, seed):
                 if src != "c05":
                     c2["T"] = min(c2["T"], 3)
                     c2["perms"] = {k: tuple(x for x in v if x < c2["T"]) for k, v in c2["perms"].items()}
-                c2["max_states"] = 2500 if tier == "quick" else 30000
+                c2["max_states"] = 2500 if tier == "quick" else 6000
                 out.append(("A", dict(src=src, cfg=c2, max_states=c2["max_states"])))
     gkinds = ["fifo-random", "fifo-grid", "fifo-bo", "pbt", "dehb", "median", "moasha", "hb-rush-prom", "hb-rush-stop", "hb-cost"]
     for ki, kind in enumerate(gkinds):
@@ -220,7 +220,7 @@ def configs(tier, seed):
             if tier == "quick" and W == 3:
                 continue
             for F in F_list:
-                out.append(("A", dict(src="generic", max_states=2500 if tier == "quick" else 30000,
+                out.append(("A", dict(src="generic", max_states=2500 if tier == "quick" else 6000,
                                       cfg=dict(kind=kind, mode="min" if ki % 2 else "max", seed=seed, R=3, W=W, T=4, F=F))))
     # GP-based searchers in their random phase (state updates are real)
     for kind, kw in (("hb-stopping", dict(searcher="bayesopt")), ("hb-promotion", dict(searcher="bayesopt")),
@@ -228,7 +228,7 @@ def configs(tier, seed):
         so = {"debug_log": False, "num_init_random": 10 ** 6}
         kw = dict(kw, search_options=so)
         for F in F_list:
-            out.append(("A", dict(src="generic", max_states=2000 if tier == "quick" else 20000,
+            out.append(("A", dict(src="generic", max_states=2000 if tier == "quick" else 6000,
                                   cfg=dict(kind=kind, mode="min", seed=seed, R=4, W=2, T=3, F=F, kw=kw))))
     # Engine B
     bk = ["fifo-random", "hb-stopping", "hb-promotion", "shb", "dehb", "pbt", "median", "hb-pasha"]
